@@ -153,7 +153,9 @@ class CirclePixelRegion(PixelRegion):
         from matplotlib.patches import Circle
 
         xy = self.center.x - origin[0], self.center.y - origin[1]
-        radius = self.radius
+        # a numpy integer scalar would be doubled in its own dtype by
+        # matplotlib's Circle (uint8 200 -> 144)
+        radius = float(self.radius)
         mpl_kwargs = self.visual.define_mpl_kwargs(self._mpl_artist)
         mpl_kwargs.update(kwargs)
 
